@@ -12,6 +12,7 @@ var checks = map[string][]HarnessSpec{
 	},
 	"C03": {
 		{Name: "verifC03Reconstruct", Pkg: ".", Labels: []string{"accepted", "checked"}},
+		{Name: "verifC03Interpreted", Pkg: ".", Labels: []string{"interpreted"}},
 	},
 	"C04": {
 		{Name: "verifC04Rules", Pkg: ".", Labels: []string{"ran"}},
@@ -54,6 +55,7 @@ var checks = map[string][]HarnessSpec{
 	"C10": {
 		{Name: "verifC10AfterReturn", Pkg: ".", Labels: []string{"after-return"}},
 		{Name: "verifC10WhileBlocked", Pkg: ".", Labels: []string{"cancelled", "ok"}},
+		{Name: "verifC10Timeout", Pkg: ".", Labels: []string{"timeout-after-return", "timeout-stalled"}},
 	},
 	"C11": {
 		{Name: "verifC11Encode", Pkg: ".", Labels: []string{"roundtrip"}},
